@@ -7,6 +7,7 @@ import (
 	"os"
 	"os/exec"
 	"path/filepath"
+	"regexp"
 	"strings"
 	"sync"
 	"time"
@@ -237,4 +238,97 @@ func containsQuant(x *SX) bool {
 		}
 	}
 	return false
+}
+
+// Unfolding of recursive specification functions.  A recursive spec function F is declared uninterpreted, with its
+// one-step definition given as a non-recursive define-fun named F.def (whose body may call F).  For every ground
+// application F(args) that occurs in a query, the instance F(args) = F.def(args) is added: one unfolding at each use
+// site.  This is sound (instances of the definition) and avoids the matching loops of a quantified definition.
+var unfoldRe = regexp.MustCompile(`\(define-fun ([A-Za-z0-9_.]+)\.def `)
+
+func addUnfoldings(decls, query string) string {
+	ms := unfoldRe.FindAllStringSubmatch(decls, -1)
+	if len(ms) == 0 {
+		return query
+	}
+	fns := map[string]bool{}
+	for _, m := range ms {
+		fns[m[1]] = true
+	}
+	xs, err := parseSXAll(query)
+	if err != nil {
+		return query
+	}
+	seen := map[string]bool{}
+	var out []string
+	var walk func(x *SX, bound map[string]bool)
+	mentions := func(x *SX, bound map[string]bool) bool {
+		var m func(x *SX) bool
+		m = func(x *SX) bool {
+			if !x.IsL {
+				return bound[x.Atom]
+			}
+			for _, c := range x.List {
+				if m(c) {
+					return true
+				}
+			}
+			return false
+		}
+		return m(x)
+	}
+	walk = func(x *SX, bound map[string]bool) {
+		if !x.IsL || len(x.List) == 0 {
+			return
+		}
+		head := x.List[0]
+		if !head.IsL && (head.Atom == "forall" || head.Atom == "exists") && len(x.List) >= 3 {
+			nb := map[string]bool{}
+			for k := range bound {
+				nb[k] = true
+			}
+			for _, b := range x.List[1].List {
+				if b.IsL && len(b.List) > 0 {
+					nb[b.List[0].Atom] = true
+				}
+			}
+			walk(x.List[2], nb)
+			return
+		}
+		if !head.IsL && head.Atom == "let" && len(x.List) >= 3 {
+			nb := map[string]bool{}
+			for k := range bound {
+				nb[k] = true
+			}
+			for _, b := range x.List[1].List {
+				if b.IsL && len(b.List) == 2 {
+					walk(b.List[1], bound)
+					nb[b.List[0].Atom] = true
+				}
+			}
+			walk(x.List[2], nb)
+			return
+		}
+		if !head.IsL && fns[head.Atom] && !mentions(x, bound) {
+			key := x.String()
+			if !seen[key] {
+				seen[key] = true
+				args := make([]string, 0, len(x.List)-1)
+				for _, a := range x.List[1:] {
+					args = append(args, a.String())
+				}
+				out = append(out, fmt.Sprintf("(assert (= %s (%s.def %s)))", key, head.Atom, strings.Join(args, " ")))
+			}
+		}
+		for _, c := range x.List {
+			walk(c, bound)
+		}
+	}
+	for _, x := range xs {
+		walk(x, map[string]bool{})
+	}
+	if len(out) == 0 {
+		return query
+	}
+	return query + strings.Join(out, "\n") + "\n"
 }
